@@ -38,6 +38,9 @@ pub enum Act {
     Sym(String),
     Readonly,
     Secure,
+    /// octal value for one or both kinds (0 = not given) together with a symbolic expression: per the docs
+    /// the octal form wins for the kind it is given for, the expression applies to the other kind
+    Mixed { dirs: u32, files: u32, sym: String },
 }
 
 #[derive(Clone, Debug, PartialEq)]
@@ -66,6 +69,12 @@ impl Op {
                     Act::Sym(s) => format!(".sym({:?})", s),
                     Act::Readonly => ".readonly()".into(),
                     Act::Secure => ".secure()".into(),
+                    Act::Mixed { dirs, files, sym } => format!(
+                        "{}{}.sym({:?})",
+                        if *dirs != 0 { format!(".dirs(0o{:o})", dirs) } else { String::new() },
+                        if *files != 0 { format!(".files(0o{:o})", files) } else { String::new() },
+                        sym
+                    ),
                 }
             ),
             Op::Chown(u, g) => format!("chown({:?}, {}, {})", path, u, g),
@@ -95,6 +104,7 @@ impl Op {
                     Act::Sym(s) => ("sym", 0, s.clone()),
                     Act::Readonly => ("readonly", 0, String::new()),
                     Act::Secure => ("secure", 0, String::new()),
+                    Act::Mixed { dirs, sym, .. } => ("mixed", *dirs, sym.clone()),
                 };
                 J::obj([
                     ("op", J::s("chmod_b")),
@@ -102,6 +112,10 @@ impl Op {
                     ("follow", J::Bool(*follow)),
                     ("act", J::s(a)),
                     ("mode", J::i(m)),
+                    ("files_mode", J::i(match act {
+                        Act::Mixed { files, .. } => *files,
+                        _ => 0,
+                    })),
                     ("sym", J::s(s)),
                 ])
             },
@@ -128,6 +142,7 @@ impl Op {
                     "sym" => Act::Sym(j.get("sym")?.as_str()?.to_string()),
                     "readonly" => Act::Readonly,
                     "secure" => Act::Secure,
+                    "mixed" => Act::Mixed { dirs: u("mode")?, files: u("files_mode").unwrap_or(0), sym: j.get("sym")?.as_str()?.to_string() },
                     _ => return None,
                 };
                 Some(Op::ChmodB { recurse: b("recurse"), follow: b("follow"), act })
@@ -152,6 +167,7 @@ impl Op {
             Op::ChmodB { act, .. } => match act {
                 Act::All(_) | Act::Dirs(_) | Act::Files(_) => "chmod-octal",
                 Act::Sym(_) => "chmod-sym",
+                Act::Mixed { .. } => "chmod-octal+sym",
                 Act::Readonly => "chmod-readonly",
                 Act::Secure => "chmod-secure",
             },
@@ -164,6 +180,10 @@ impl Op {
 type CallResult = Result<Result<(), String>, String>;
 
 fn exec_op<V: VirtualFileSystem>(fs: &V, path: &str, op: &Op) -> CallResult {
+    watched(|d| d.push_str(&op.render(path)), || exec_op_unwatched(fs, path, op))
+}
+
+fn exec_op_unwatched<V: VirtualFileSystem>(fs: &V, path: &str, op: &Op) -> CallResult {
     let r = catch_unwind(AssertUnwindSafe(|| -> RvResult<()> {
         match op {
             Op::Chmod(m) => fs.chmod(path, *m),
@@ -180,6 +200,16 @@ fn exec_op<V: VirtualFileSystem>(fs: &V, path: &str, op: &Op) -> CallResult {
                     Act::Sym(s) => b.sym(s),
                     Act::Readonly => b.readonly(),
                     Act::Secure => b.secure(),
+                    Act::Mixed { dirs, files, sym } => {
+                        let mut b = b;
+                        if *dirs != 0 {
+                            b = b.dirs(*dirs);
+                        }
+                        if *files != 0 {
+                            b = b.files(*files);
+                        }
+                        b.sym(sym)
+                    },
                 };
                 b.exec()
             },
@@ -305,6 +335,14 @@ fn want_modes(act: &Act, is_dir: bool, old: u32) -> Vec<u32> {
         },
         // "Drop all permissions for group and other so that only user permissions remain."
         Act::Secure => vec![old & !0o077],
+        Act::Mixed { dirs, files, sym } => {
+            let oct = if is_dir { *dirs } else { *files };
+            if oct != 0 {
+                vec![hi | oct]
+            } else {
+                want_modes(&Act::Sym(sym.clone()), is_dir, old)
+            }
+        },
     }
 }
 
@@ -1048,6 +1086,10 @@ fn chmod_ops() -> Vec<Op> {
             v.push(Op::ChmodB { recurse, follow, act: Act::Readonly });
             v.push(Op::ChmodB { recurse, follow, act: Act::Secure });
         }
+        // octal for one kind, expression for the other; octal for both kinds beats the expression
+        v.push(Op::ChmodB { recurse, follow: false, act: Act::Mixed { dirs: 0o700, files: 0, sym: "f:a-w".into() } });
+        v.push(Op::ChmodB { recurse, follow: false, act: Act::Mixed { dirs: 0, files: 0o600, sym: "d:go+w".into() } });
+        v.push(Op::ChmodB { recurse, follow: false, act: Act::Mixed { dirs: 0o711, files: 0o640, sym: "a:a=rwx".into() } });
     }
     v
 }
@@ -1386,6 +1428,12 @@ pub fn stdfs_worker(w: &mut WorkerCtx) {
         w.count("stdfs_skipped_not_root", 1);
         return;
     }
+    let _wd = start_call_watchdog(std::time::Duration::from_secs(20), move |call| {
+        let line = J::obj([("sig", J::s("stdfs chmod/chown · hang")), ("n", J::i(1)), ("detail", J::s(format!("{} did not return within 20 s", call))), ("case", J::obj([("part", J::s("hang")), ("call", J::s(call.clone()))]))]);
+        println!("V\t{}", line.to_string());
+        println!("DONE");
+        std::process::exit(0);
+    });
     let sb = Sandbox::new(&format!("c11.{}", w.shard));
     let trees = enum_trees(&tree_space(w.tier.pick(3, 4)));
     let mut chm = chmod_ops();
@@ -1481,6 +1529,17 @@ pub fn run(ctx: &Ctx) -> i32 {
     if let Some(p) = &ctx.replay {
         return replay(ctx, p);
     }
+    // a chmod/chown call that does not return is a violation (it neither applies the mode nor reports an error)
+    let hang_limit = ctx.tier.pick(10u64, 30u64);
+    let hprop = ctx.prop.clone();
+    let wd = start_call_watchdog(std::time::Duration::from_secs(hang_limit), move |call| {
+        let sig = "memfs chmod/chown · hang".to_string();
+        let detail = format!("{} did not return within {} s", call, hang_limit);
+        eprintln!("HANG: {}", detail);
+        let c2 = call.clone();
+        vio(&sig, move || detail, move || J::obj([("part", J::s("hang")), ("call", J::s(c2))]));
+        std::process::exit(crate::props::hang_exit(&hprop, &sig));
+    });
     let c = Counters {
         evals: AtomicU64::new(0),
         nontrivial: AtomicU64::new(0),
@@ -1612,6 +1671,7 @@ pub fn run(ctx: &Ctx) -> i32 {
         ("setup_failed", J::i(c.setup_failed.load(Ordering::Relaxed))),
         ("wall_split_s", J::s(format!("memfs trees {:.1}, stdfs {:.1}, grammar {:.1}, malformed {:.1}", t_trees, t_stdfs, t_grammar, t_malformed))),
     ]);
+    wd.store(true, Ordering::Relaxed);
     finish(ctx, Evidence {
         level: "model_checking",
         coverage: cov,
@@ -1629,6 +1689,11 @@ fn replay(ctx: &Ctx, p: &std::path::Path) -> i32 {
     let j = json::parse(&std::fs::read_to_string(p).expect("read replay")).expect("parse replay");
     let case = j.get("case").expect("case");
     let part = case.get("part").and_then(|x| x.as_str()).unwrap_or("");
+    if part == "hang" {
+        println!("replay C11: the recorded call {} did not return; a hang is re-observed by re-running ./check C11 (the watchdog reports the first call that does not return)", case.get("call").and_then(|x| x.as_str()).unwrap_or("?"));
+        println!("VIOLATION property={} replay={}", ctx.prop, p.display());
+        return 1;
+    }
     let c = Counters {
         evals: AtomicU64::new(0),
         nontrivial: AtomicU64::new(0),
